@@ -47,12 +47,16 @@ Theorem C09_cell_remove_value : forall {T} (d : list (entry T)) w r,
 Proof. exact @cell_remove_value. Qed.
 Print Assumptions C09_cell_remove_value.
 
-(* ---- zone level: traces of API calls (run = fold of step over the events).
-   No restriction on the operations: update_child for names without a node
-   included (node existence is derived from versioned data since /repo 1953e6b). ---- *)
+(* ---- zone level: traces of API calls (run = fold of step over the events) over
+   the whole node tree (names are label paths; zone cuts, CNAMEs, wildcards, ANY).
+   No restriction on the data operations: update_child for names without a node
+   included (node existence is derived from versioned data since /repo 1953e6b).
+   `stale_free evs`: the trace does not use a write handle after the commit/drop
+   that ended its session, OR the implementation rejects such use (T1 flag);
+   see C09_stale_handle_refuted for what happens otherwise. ---- *)
 
 Theorem C09_snapshot_isolation : forall evs s r,
-  zinv s -> r <= z_cur s -> z_cur s + ncommits evs + 2 < LIM ->
+  zinv s -> r <= z_cur s -> z_cur s + ncommits evs + 2 < LIM -> stale_free evs ->
   (forall name t, query (run s evs) r name t = query s r name t) /\ walk (run s evs) r = walk s r.
 Proof. exact snapshot_isolation. Qed.
 Print Assumptions C09_snapshot_isolation.
@@ -83,17 +87,15 @@ Theorem C09_writers_serialised : forall s wr,
 Proof. exact writers_serialised. Qed.
 Print Assumptions C09_writers_serialised.
 
-Theorem C09_walk_exact : forall s v name t rr,
-  In (name, t, rr) (walk s v) <->
-  (name = 0 /\ exists d, In (t, d) (z_apex s) /\ v_get d v = Some rr) \/
-  (exists n, In (name, n) (z_nodes s) /\
-     ((exists d, In (t, d) (n_rrsets n) /\ v_get d v = Some rr) \/
-      (t = 5 /\ n_with_special n v = Some (SCname rr)))).
+Theorem C09_walk_exact : forall s v x,
+  In x (walk s v) <->
+  (exists t d rr, x = ([], t, rr) /\ In (t, d) (z_apex s) /\ v_get d v = Some rr) \/
+  (exists k n, In (k, n) (z_nodes s) /\ n_has v [k] n x).
 Proof. exact walk_exact. Qed.
 Print Assumptions C09_walk_exact.
 
 Theorem C09_step_preserves_invariant : forall s e,
-  zinv s -> z_cur s + 2 < LIM ->
+  zinv s -> z_cur s + 2 < LIM -> stale_ok e ->
   zinv (step s e) /\ z_cur s <= z_cur (step s e) /\
   z_cur (step s e) <= z_cur s + (match e with ECommit => 1 | _ => 0 end) /\
   (forall r, r <= z_cur s -> view_eq (step s e) s r).
@@ -101,6 +103,22 @@ Proof. exact step_inv. Qed.
 Print Assumptions C09_step_preserves_invariant.
 
 Theorem C09_reachable_invariant : forall is evs,
-  ncommits evs + 2 < LIM -> zinv (run (build is) evs).
+  ncommits evs + 2 < LIM -> stale_free evs -> zinv (run (build is) evs).
 Proof. exact reachable_invariant. Qed.
 Print Assumptions C09_reachable_invariant.
+
+Theorem C09_stale_handle_refuted :
+  stale_handle_rejected = false ->
+  exists s evs r name t,
+    zinv s /\ r <= z_cur s /\ z_cur s + ncommits evs + 2 < LIM /\ no_stale evs = false /\
+    query s r name t = AData 21 /\ query (run s evs) r name t = AData 22.
+Proof. exact stale_handle_refuted. Qed.
+Print Assumptions C09_stale_handle_refuted.
+
+Theorem C09_stale_handle_after_drop_refuted :
+  stale_handle_rejected = false ->
+  exists s evs name t,
+    zinv s /\ z_writer s = None /\ no_stale evs = false /\
+    query s 1 name t = ANoData (Some 1) /\ query (run s evs) 1 name t = AData 31.
+Proof. exact stale_handle_after_drop_refuted. Qed.
+Print Assumptions C09_stale_handle_after_drop_refuted.
